@@ -155,15 +155,15 @@ type finding struct {
 }
 
 type execResult struct {
-	Key      string   // canonical key after the last letter ("" if the run was cut by a finding)
-	Obs      string   // canonical observation of the last letter (verdict/outcome + observers after it)
+	Key      string // canonical key after the last letter ("" if the run was cut by a finding)
+	Obs      string // canonical observation of the last letter (verdict/outcome + observers after it)
 	Findings []finding
 	Classes  []string // outcome classes seen (for the histogram)
 	Reaps    int
 	Blocks   int
 	State    *evmState // recipe of the resulting pool state (nil: not reconstructible)
 	Snap     interface{}
-	Restored bool      // the run started from a reconstructed state instead of a literal replay
+	Restored bool // the run started from a reconstructed state instead of a literal replay
 }
 
 type evmExec struct {
@@ -518,11 +518,13 @@ func (x *evmExec) apply(letter string) string {
 //
 // Why two instances with equal keys have equal futures under the alphabet:
 // every letter's effect and every observer's result is a function of
-//   (1) pending and waiting: per account the nonce→tx maps and their nonce heaps,
-//   (2) the lookup map `all` (duplicate test, Size),
-//   (3) the ext list (order matters: reap order, oldest-first eviction),
-//   (4) the two limits (constant per configuration),
-//   (5) the state nonce of the accounts in the application state,
+//
+//	(1) pending and waiting: per account the nonce→tx maps and their nonce heaps,
+//	(2) the lookup map `all` (duplicate test, Size),
+//	(3) the ext list (order matters: reap order, oldest-first eviction),
+//	(4) the two limits (constant per configuration),
+//	(5) the state nonce of the accounts in the application state,
+//
 // all of which are in the key, expressed with history-local names (account
 // letter, nonce, payload letter) because each history uses fresh keys and the
 // pool uses an address only as a map key.  Not in the key, with the reason:
@@ -744,9 +746,11 @@ func (x *evmExec) begin(nonces []uint64) {
 }
 
 // runEvm executes letters on the worker's real application and pool.
-//   from == nil: literal run of prefill + hist (fresh accounts at nonce 0);
-//   from != nil: rebuild that state, then run hist[len(hist)-suffix:]; returns
-//   nil when the state cannot be rebuilt (caller falls back to the literal run).
+//
+//	from == nil: literal run of prefill + hist (fresh accounts at nonce 0);
+//	from != nil: rebuild that state, then run hist[len(hist)-suffix:]; returns
+//	nil when the state cannot be rebuilt (caller falls back to the literal run).
+//
 // mode: "step" (key + observers after the last letter), "drain" (then drain).
 func runEvm(w *evmWorker, from *evmState, hist []string, suffix int, mode string) *execResult {
 	res := &execResult{Restored: from != nil}
